@@ -77,6 +77,15 @@ chk("C04",
     TRUST + "Not decided: the numeric bounds (< 1 unit per matched bid, ≥ price×quantity) for all 18-decimal prices; they follow from the directions only qualitatively.",
     "rounding-direction abstract domain over provenance terms + operator-skeleton sibling comparison + ORD-EVAL for the inclusion guard + map-update provenance", "DESIGN.md section 4 C04")
 
+chk("C01",
+    "Structural necessary conditions of the escrow equalities (not the equalities as numbers): (ESC-ROLE) every transfer/fee reachable from the 8 entry points, explored in the entry point's context so that helpers' address parameters are bound, has an attributed payer and payee (escrow of an identified auction, stored auctioneer, bidder, message signer) and the pair is in the confirmed per-entry table within one auction — no other code debits or credits an escrow; (CREDIT-RECORD) creation credits exactly the SellingCoin it stores (= initial remainder); placement credits, per admitted bid type, the bid's own to-paying conversion of the stored coin and price or the stored worth coin; modification credits (msg coin − stored coin) or the difference of the two ceilings; directions CEIL/CEIL-DIFF/EXACT only; (PAIR-RESERVE) per admitted bid type every non-failing placement reserves exactly once before the Bid write (fixed price: also subtracts the remainder and stores the auction); modification reserves iff the difference coin is positive and always rewrites the record; (DRAIN) unsold return, sweep and cancel refund send exactly NewCoin(d, SpendableCoins(escrow).AmountOf(d)) in the escrow's own denomination; (VEST-*) shared with C09.",
+    TRUST + "Not decided: the numerical equalities for all prices/amounts/interleavings; bank behaviour; third-party deposits. The module's own >= invariants are unregistered (noted).",
+    "effect/role attribution over abstract paths from the entry points + provenance-term agreement of credited and recorded amounts + counting automaton (reserve ⇔ record) + rounding directions", "DESIGN.md section 4 C01")
+chk("C02",
+    "Structural necessary conditions: (ESC-ROLE) as in C01 — in particular the only debits of a user account are the two fee payments and the two reservations, each from the message signer; (BANK-METHODS) outside the simulation package only SendCoins/InputOutputCoins/SpendableCoins are invoked on the bank keeper; (SETTLE-SEQ) for a Started auction of either type every non-failing path of block processing either moves nothing or performs exactly once, in order, allocation ≺ unsold return ≺ refund (batch) ≺ sweep ≺ status advance (region events for the per-bidder loops; the automaton is reset per iterated auction); (PAIR-FEE) creation and placement pay Params' configured fee from the signer exactly once before the record is written; (MSG-PROP) in the call trees of all message handlers (91 call sites) every exit reached after a callee failed is itself a failure.",
+    TRUST + "Not decided: per-participant amounts; that bank's InputOutputCoins conserves coins (bank v0.50.8, trusted).",
+    "role attribution + ordered-steps automaton over abstract paths with region events + per-call-site error propagation", "DESIGN.md section 4 C02")
+
 PENDING = {}  # property -> reason (kept current as checks are added)
 ALL = ["C%02d" % i for i in range(1, 21)]
 for p in ALL:
